@@ -342,7 +342,7 @@ Fixpoint mar (fuel : nat) (t : ty) (x : pv) {struct fuel} : res pv :=
   | S n =>
     match t with
     | TLeaf s | TRefLeaf s => leaf_m rt s x
-    | TNone => Ok x                                         (* NoOpMarshaller *)
+    | TNone => if is_none_val x then Ok x else Raise EValue   (* NoneTypeMarshaller *)
     | TSeq k a => bind (itervalues x) (fun vs => bind (mapM (mar n a) vs) (fun rs => Ok (PSeq KList rs)))
     | TMap k kt vt =>
         bind (iteritems x) (fun kvs =>
